@@ -1,4 +1,4 @@
 From Coq Require Import Extraction ExtrOcamlBasic.
 From IV Require Import Base.Bytes Model.StoreSpec Model.Retention Model.RetentionLoop.
 Extraction Language OCaml.
-Extraction "c12_model.ml" conv_anchor spec_init exec_spec expired snapshot scan do_scan sys_init replay run start loop spec_visit linit lev_step loop_step settle lrun.
+Extraction "c12_model.ml" conv_anchor spec_init exec_spec expired snapshot scan do_scan sys_init replay run start loop spec_visit linit lev_step loop_step settle lrun deliver_op.
